@@ -39,8 +39,13 @@ VARIABLES L, S,         \* large and small block size
           ka, kb,       \* content key: Dat(i) below
           sh, dh,       \* hashes of the 14 shards after encoding (<<>> before) / of the data file
           ex,           \* the mounted EC index: needle id -> <<offset / 8, size>>  (<<>>: not mounted)
-          lc            \* model checking only: state of the locator's loop (NoLoc: no read under way)
-vars == <<L, S, n, ka, kb, sh, dh, ex, lc>>
+          lc,           \* model checking only: state of the locator's loop (NoLoc: no read under way)
+          vol           \* the life cycle of a real volume (executions with "vol": true), see the bottom of the file
+vars == <<L, S, n, ka, kb, sh, dh, ex, lc, vol>>
+
+(* the volume life cycle is not under way (every execution over a data file of known content) *)
+None == "none"
+NoVol == [ph |-> "off", blob |-> <<>>, encb |-> <<>>, ecd |-> {}, cyc |-> 0, fsz |-> 0]
 
 D == DataShards
 RowL == D * L
@@ -198,12 +203,12 @@ OrigDecodeExactIffNotMultiple == lc.v = "none" => (DecodeIdx("orig", n) = Range(
 MaxN == MaxRows * RowL + S + 1
 MCInit == /\ \E b \in Blocks : L = b[1] /\ S = b[2]
           /\ n \in 0..MaxN
-          /\ ka = 1 /\ kb = 0 /\ sh = <<>> /\ dh = "" /\ ex = <<>> /\ lc = NoLoc
+          /\ ka = 1 /\ kb = 0 /\ sh = <<>> /\ dh = "" /\ ex = <<>> /\ lc = NoLoc /\ vol = NoVol
 LocStart == /\ lc.v = "none"
             /\ \E o \in 0..(n - 1) : \E m \in {<<"tree", DerivedDatSize>>, <<"tree", n>>, <<"orig", DerivedDatSize>>} :
                   lc' = LocateOffset(m[1], m[2], o)
 LocStep == lc.v # "none" /\ lc.at + Remaining(lc) < n /\ lc' = NextBlock(lc)
-MCNext == (LocStart \/ LocStep) /\ UNCHANGED <<L, S, n, ka, kb, sh, dh, ex>>
+MCNext == (LocStart \/ LocStep) /\ UNCHANGED <<L, S, n, ka, kb, sh, dh, ex, vol>>
 MCSpec == MCInit /\ [][MCNext]_vars
 
 GenSpec == MCInit /\ [][FALSE]_vars
@@ -231,12 +236,12 @@ Canon(runs, k, acc) ==
 SameBytes(r1, r2) == Canon(r1, 1, <<>>) = Canon(r2, 1, <<>>)
 DatRuns(off, size) == <<<<Dat(off), size>>>>     \* Dat(off .. off+size-1)
 
-Init == L = 0 /\ S = 0 /\ n = 0 /\ ka = 1 /\ kb = 0 /\ sh = <<>> /\ dh = "" /\ ex = <<>> /\ lc = NoLoc
+Init == L = 0 /\ S = 0 /\ n = 0 /\ ka = 1 /\ kb = 0 /\ sh = <<>> /\ dh = "" /\ ex = <<>> /\ lc = NoLoc /\ vol = NoVol
 
 (* encoding succeeds; remember what the shards and the data file look like *)
 Encode(err, hashes, dathash) ==
   /\ err = "" /\ Len(hashes) = 14
-  /\ sh' = hashes /\ dh' = dathash /\ UNCHANGED <<L, S, n, ka, kb, ex, lc>>
+  /\ sh' = hashes /\ dh' = dathash /\ UNCHANGED <<L, S, n, ka, kb, ex, lc, vol>>
 
 (* reads at one offset through LocateData / ToShardIdAndOffset / shard file ReadAt *)
 ReadOk(off, size, err, got) == err = "" /\ SameBytes(got, DatRuns(off, size))
@@ -247,7 +252,7 @@ Reads(off, sizes, errs, got) ==
 
 (* any <= 4 shards removed, rebuilt: the 14 shard files are what they were *)
 Rebuild(lost, err, after) ==
-  /\ sh # <<>>
+  /\ sh # <<>> /\ vol.ph \in {"off", "ec"}
   /\ Cardinality({lost[k] : k \in 1..Len(lost)}) <= 4 => (err = "" /\ after = sh)
   /\ UNCHANGED vars
 
@@ -265,7 +270,7 @@ Mount(needles, err) ==
   /\ sh # <<>> /\ err = ""
   /\ ex' = [id \in {needles[k][1] : k \in 1..Len(needles)} |->
               LET k == CHOOSE k \in 1..Len(needles) : needles[k][1] = id IN <<needles[k][2], needles[k][3]>>]
-  /\ UNCHANGED <<L, S, n, ka, kb, sh, dh, lc>>
+  /\ UNCHANGED <<L, S, n, ka, kb, sh, dh, lc, vol>>
 Needle(id, err, off, asize, got) ==
   /\ (id \in DOMAIN ex /\ 8 * ex[id][1] + ex[id][2] + 64 <= n) =>
         /\ err = "" /\ off = 8 * ex[id][1] /\ asize >= ex[id][2]
@@ -284,4 +289,74 @@ LayoutAsModelled(sizes, runs) ==
   /\ \A k \in 1..Len(sizes) : sizes[k] = ShardSize
   /\ Len(runs) = D
   /\ \A s \in 0..(D - 1) : SameBytes(runs[s + 1], ShardRuns(EncRows, 1, s))
+
+(* ------------------------------------------------- layer A: the life cycle of a real volume
+   (executions whose reset line says "vol": true).  A real volume (storage.Store / Volume) is
+   written and deleted from, closed, turned into an .ecx (WriteSortedFileFromIdx) and 14 shards
+   (WriteEcFiles); the real EcVolume serves reads (LocateEcShardNeedle + shard ReadAt + needle
+   parsing) and deletions (DeleteNeedleFromEcx: mark in the .ecx + append to the .ecj journal);
+   shards are lost and rebuilt (Rebuild above); the journal is folded into the .ecx
+   (RebuildEcxFile) or not; the volume is decoded (FindDatFileSize + WriteDatFile +
+   WriteIdxFileFromEcIndex) and loaded by the real volume loader.
+
+   vol.ph   "off"  no volume life cycle in this execution
+            "vol"  a normal, writable volume     "ec"  erasure coded
+            "dec"  decoded files written, not loaded yet
+            "void" a set-up step failed where the statement promises nothing: nothing is judged any more
+   vol.blob key -> content token / None: what the volume holds (the property state);
+   vol.encb = blob at encode time, vol.ecd = keys deleted while erasure coded (ghosts for the
+   design-level invariants), vol.cyc = completed encode/decode cycles, vol.fsz = decoded size.
+   n = size of the .dat at encode time, dh / sh = its hash / the 14 shard hashes.
+
+   The statement is silent about WHICH size FindDatFileSize computes: any prefix of the original
+   data file is admitted, as long as everything live is readable afterwards. *)
+VFresh == [NoVol EXCEPT !.ph = "vol"]
+VGet(f, k) == IF k \in DOMAIN f THEN f[k] ELSE None
+VPut(f, k, d) == [j \in DOMAIN f \cup {k} |-> IF j = k THEN d ELSE f[j]]
+VLive(f) == {k \in DOMAIN f : f[k] # None}
+VOther == <<L, S, n, ka, kb, sh, dh, ex, lc>>
+
+(* a write must work on a volume that came out of a decode; before the first encoding it is set-up *)
+VWrite(k, d, res) ==
+  /\ vol.ph = "vol"
+  /\ IF res = "ok" THEN vol' = [vol EXCEPT !.blob = VPut(@, k, d)]
+     ELSE vol.cyc = 0 /\ vol' = [vol EXCEPT !.ph = "void"]
+  /\ UNCHANGED VOther
+VDelete(k, res) ==
+  /\ vol.ph = "vol"
+  /\ vol' = IF res = "ok" THEN [vol EXCEPT !.blob = VPut(@, k, None)] ELSE [vol EXCEPT !.ph = "void"]
+  /\ UNCHANGED VOther
+(* .ecx from the .idx, 14 shards from the .dat: must work for any volume *)
+VEncode(err, xerr, size, hashes, dathash) ==
+  /\ vol.ph = "vol" /\ err = "" /\ xerr = "" /\ Len(hashes) = 14
+  /\ sh' = hashes /\ dh' = dathash /\ n' = size
+  /\ vol' = [vol EXCEPT !.ph = "ec", !.encb = vol.blob, !.ecd = {}]
+  /\ UNCHANGED <<L, S, ka, kb, ex, lc>>
+(* the EC read path serves what the volume held; a key that is not live never yields data *)
+VReadOk(k, st, d) == IF VGet(vol.blob, k) # None THEN st = "data" /\ d = vol.blob[k] ELSE st # "data"
+VEcRead(k, st, d) == vol.ph = "ec" /\ VReadOk(k, st, d) /\ UNCHANGED vars
+VEcDelete(k, err) ==
+  /\ vol.ph = "ec" /\ err = ""
+  /\ vol' = [vol EXCEPT !.blob = VPut(@, k, None), !.ecd = IF VGet(vol.blob, k) # None THEN @ \cup {k} ELSE @]
+  /\ UNCHANGED VOther
+(* folding the journal into the .ecx (stale: into an .ecx that has not seen the deletions) changes nothing *)
+VFold(stale, err) == vol.ph = "ec" /\ err = "" /\ UNCHANGED vars
+(* decode: no error; the decoded .dat is a prefix of the original one (the driver hashed that prefix) *)
+VDecodeOk(ferr, fsize, derr, ierr, dsize, hash, phash) ==
+  /\ ferr = "" /\ derr = "" /\ ierr = ""
+  /\ fsize >= 0 /\ fsize <= n /\ dsize = fsize /\ hash = phash
+  /\ fsize = n => hash = dh
+VDecode(stale, ferr, fsize, derr, ierr, dsize, hash, phash) ==
+  /\ vol.ph = "ec"
+  /\ VDecodeOk(ferr, fsize, derr, ierr, dsize, hash, phash)
+  /\ vol' = [vol EXCEPT !.ph = "dec", !.fsz = fsize]
+  /\ UNCHANGED VOther
+(* the real loader takes the decoded volume: no error, writable *)
+VLoad(res, ro) ==
+  /\ vol.ph = "dec" /\ res = "ok" /\ ro = FALSE
+  /\ vol' = [vol EXCEPT !.ph = "vol", !.cyc = @ + 1]
+  /\ UNCHANGED VOther
+(* reads of the loaded volume (before the first encoding a read is set-up: nothing is demanded) *)
+VRead(k, st, d) == vol.ph = "vol" /\ (vol.cyc > 0 => VReadOk(k, st, d)) /\ UNCHANGED vars
+VVoid == vol.ph = "void" /\ UNCHANGED vars
 =============================================================================
